@@ -150,15 +150,22 @@ def find_in_scope(
         var_name_lower: str,
         filter_public: bool = False,
         var_line_number: int = None,
+        def_vis: int = None,
     ):
         from .function import Function
 
+        # The procedures of an unnamed interface block have the default
+        # accessibility of the scope that holds the block
+        if def_vis is None:
+            def_vis = local_scope.def_vis
         for child in local_scope.get_children():
             if child.name.startswith("#GEN_INT"):
-                tmp_var = check_scope(child, var_name_lower, filter_public)
+                tmp_var = check_scope(
+                    child, var_name_lower, filter_public, def_vis=def_vis
+                )
                 if tmp_var is not None:
                     return tmp_var
-            is_private = child.vis < 0 or (local_scope.def_vis < 0 and child.vis <= 0)
+            is_private = child.vis < 0 or (def_vis < 0 and child.vis <= 0)
             if filter_public and is_private:
                 continue
             if child.name.lower() == var_name_lower:
